@@ -58,9 +58,130 @@ package client
 //@   props C11
 //@   requires [wired] adapter != nil && adapter.client != nil && resourcePointer != nil && ctx != nil
 //@   requires [opts-nonnil] forall i int :: 0 <= i && i < len(opt) ==> opt[i] != nil
+//@   ghostlocal rpcFailed bool
+//@   ghostlocal rpcErr error
+//@   at Code #1
+//@     ghost_here rpcErr = err
+//@     ghost_here rpcFailed = true
+//@   ensures [status-code-becomes-error-class] rpcFailed && statusCode(rpcErr) != 12 ==> result1 != nil &&
+//@     (statusCode(rpcErr) == 5 ==> typeis(result1, "eNotFound")) &&
+//@     (statusCode(rpcErr) == 7 ==> typeis(result1, "eOwnerConflict")) &&
+//@     (statusCode(rpcErr) == 3 ==> typeis(result1, "ePhaseConflict")) &&
+//@     (statusCode(rpcErr) == 9 ==> typeis(result1, "eConflict"))
 //@   at teardownFallback #1
 //@     assert [options-applied-before-sticky-fallback] rangeindex == len(opt)
 //@   at teardownFallback #2
 //@     assert [options-applied-before-fallback] rangeindex == len(opt)
 //@   loop #1
 //@     invariant [wired] adapter != nil && adapter.client != nil && resourcePointer != nil && ctx != nil
+
+// The same for TeardownAndDestroy: both uses of the fallback see the caller's options.
+//@ func (*Adapter).TeardownAndDestroy
+//@   props C11
+//@   requires [wired] adapter != nil && adapter.client != nil && resourcePointer != nil && ctx != nil
+//@   requires [opts-nonnil] forall i int :: 0 <= i && i < len(opt) ==> opt[i] != nil
+//@   ghostlocal rpcFailed bool
+//@   ghostlocal rpcErr error
+//@   at Code #1
+//@     ghost_here rpcErr = err
+//@     ghost_here rpcFailed = true
+//@   ensures [status-code-becomes-error-class] rpcFailed && statusCode(rpcErr) != 12 ==> result != nil &&
+//@     (statusCode(rpcErr) == 5 ==> typeis(result, "eNotFound")) &&
+//@     (statusCode(rpcErr) == 7 ==> typeis(result, "eOwnerConflict")) &&
+//@     (statusCode(rpcErr) == 3 ==> typeis(result, "ePhaseConflict")) &&
+//@     (statusCode(rpcErr) == 9 ==> typeis(result, "eConflict"))
+//@   at teardownAndDestroyFallback #1
+//@     assert [options-applied-before-sticky-fallback] rangeindex == len(opt)
+//@   at teardownAndDestroyFallback #2
+//@     assert [options-applied-before-fallback] rangeindex == len(opt)
+//@   loop #1
+//@     invariant [wired] adapter != nil && adapter.client != nil && resourcePointer != nil && ctx != nil
+
+// C11, error classes on the client side: a failed RPC is turned into the error class that belongs to
+// its status code (5 NotFound, 7 PermissionDenied, 3 InvalidArgument, 9 FailedPrecondition), so that
+// together with the server's translation (pkg/state/protobuf/server) the class the wrapped state
+// reported is the class the caller sees. rpcFailed / rpcErr are ghost locals of each method: the error being classified.
+// Generated protobuf accessors are nil-safe one-liners: they are inlined.
+//@ inline_matching ^api/v1alpha1\.\(\*\w+\)\.Get\w+$
+// (assumed of the generated gRPC stubs: a unary call writes none of the caller's memory and returns a
+// response or an error)
+//@ iface api/v1alpha1.StateClient.Get
+//@   ensures [response-or-error] result1 == nil ==> result0 != nil
+//@ iface api/v1alpha1.StateClient.Create
+//@   ensures [response-or-error] result1 == nil ==> result0 != nil
+//@ iface api/v1alpha1.StateClient.Update
+//@   ensures [response-or-error] result1 == nil ==> result0 != nil
+//@ iface api/v1alpha1.StateClient.Destroy
+//@   ensures [response-or-error] result1 == nil ==> result0 != nil
+//@ iface api/v1alpha1.StateClient.Teardown
+//@   ensures [response-or-error] result1 == nil ==> result0 != nil
+//@ iface api/v1alpha1.StateClient.TeardownAndDestroy
+//@   ensures [response-or-error] result1 == nil ==> result0 != nil
+//@ func (*Adapter).Destroy
+//@   props C11
+//@   requires [wired] adapter != nil && adapter.client != nil && resourcePointer != nil && ctx != nil
+//@   requires [opts-nonnil] forall i int :: 0 <= i && i < len(opt) ==> opt[i] != nil
+//@   ghostlocal rpcFailed bool
+//@   ghostlocal rpcErr error
+//@   at Code #1
+//@     ghost_here rpcErr = err
+//@     ghost_here rpcFailed = true
+//@   ensures [status-code-becomes-error-class] rpcFailed ==> result != nil &&
+//@     (statusCode(rpcErr) == 5 ==> typeis(result, "eNotFound")) &&
+//@     (statusCode(rpcErr) == 7 ==> typeis(result, "eOwnerConflict")) &&
+//@     (statusCode(rpcErr) == 9 ==> typeis(result, "eConflict"))
+//@   loop #1
+//@     invariant [wired] adapter != nil && adapter.client != nil && resourcePointer != nil && ctx != nil
+//@ func (*Adapter).Get
+//@   props C11
+//@   requires [wired] adapter != nil && adapter.client != nil && resourcePointer != nil && ctx != nil
+//@   requires [opts-nonnil] forall i int :: 0 <= i && i < len(opt) ==> opt[i] != nil
+//@   ghostlocal rpcFailed bool
+//@   ghostlocal rpcErr error
+//@   at Code #1
+//@     ghost_here rpcErr = err
+//@     ghost_here rpcFailed = true
+//@   ensures [status-code-becomes-error-class] rpcFailed ==> result1 != nil &&
+//@     (statusCode(rpcErr) == 5 ==> typeis(result1, "eNotFound"))
+//@   loop #1
+//@     invariant [wired] adapter != nil && adapter.client != nil && resourcePointer != nil && ctx != nil
+//@ func (*Adapter).Create
+//@   props C11
+//@   requires [wired] adapter != nil && adapter.client != nil && r != nil && ctx != nil
+//@   requires [opts-nonnil] forall i int :: 0 <= i && i < len(opt) ==> opt[i] != nil
+//@   ghostlocal rpcFailed bool
+//@   ghostlocal rpcErr error
+//@   at Code #1
+//@     ghost_here rpcErr = err
+//@     ghost_here rpcFailed = true
+//@   ensures [status-code-becomes-error-class] rpcFailed ==> result != nil &&
+//@     (statusCode(rpcErr) == 5 ==> typeis(result, "eNotFound")) &&
+//@     (statusCode(rpcErr) == 7 ==> typeis(result, "eOwnerConflict")) &&
+//@     (statusCode(rpcErr) == 6 ==> typeis(result, "eConflict"))
+//@   loop #1
+//@     invariant [wired] adapter != nil && adapter.client != nil && r != nil && ctx != nil
+// (assumed: an expected phase set by an update option is one of the two phases)
+//@ func (*Adapter).Update
+//@   props C11
+//@   at String #1
+//@     assume_here [expected-phase-is-a-phase] *opts.ExpectedPhase == resource.PhaseRunning || *opts.ExpectedPhase == resource.PhaseTearingDown
+//@   requires [wired] adapter != nil && adapter.client != nil && newResource != nil && ctx != nil
+//@   requires [opts-nonnil] forall i int :: 0 <= i && i < len(opt) ==> opt[i] != nil
+//@   ghostlocal rpcFailed bool
+//@   ghostlocal rpcErr error
+//@   at Code #1
+//@     ghost_here rpcErr = err
+//@     ghost_here rpcFailed = true
+//@   ensures [status-code-becomes-error-class] rpcFailed ==> result != nil &&
+//@     (statusCode(rpcErr) == 5 ==> typeis(result, "eNotFound")) &&
+//@     (statusCode(rpcErr) == 7 ==> typeis(result, "eOwnerConflict")) &&
+//@     (statusCode(rpcErr) == 3 ==> typeis(result, "ePhaseConflict")) &&
+//@     (statusCode(rpcErr) == 9 ==> typeis(result, "eConflict"))
+//@   loop #1
+//@     invariant [wired] adapter != nil && adapter.client != nil && newResource != nil && ctx != nil
+// Write-back of version / update time / owner into the caller's object touches only that object's
+// metadata.
+//@ func updateResourceMetadata
+//@   props C11
+//@   requires [target] targetRes != nil
+//@   modifies *mdOf(targetRes)
